@@ -177,6 +177,18 @@ func body(w *runner.W) {
 				}
 			}
 		}
+		// many matches per 128KiB scan block (insertions / scrambled pieces), high-entropy old
+		for _, size := range []int{300 * K, 1100 * K} {
+			for _, nk := range []string{"inserts", "shuffled"} {
+				for _, p := range []int{0, 2, 7} {
+					if w.Quick() && size > 300*K && p != 2 {
+						continue
+					}
+					n++
+					large.Do(DiffCase{Parts: []int{p}, Conc: concs[n%3], Large: &LargeGen{OldKind: "rand", Size: size, NewKind: nk}})
+				}
+			}
+		}
 		large.Done()
 	}
 
